@@ -8,6 +8,8 @@ CONSTANTS
     Topos <- MCInfluxOnly
     StopKinds <- TaskOnly
     AllowFail = FALSE
+    MaxN = 3
+    MaxE = 4
     InfluxStopF = TRUE
     ReaderDone = TRUE
     AlertCloseOnErr = TRUE
